@@ -27,6 +27,13 @@ type c05Run struct {
 	ShowDups bool         `json:"show_duplicates"`
 	Sevs     []string     `json:"severities"`
 	JSONOK   bool         `json:"json_present"`
+	// control-flow strata: an injected infrastructure fault (the stage of actionLint/actionCI that must return an error),
+	// the git situation of pint ci, and whether the --json file exists at all afterwards
+	Fault      string `json:"fault,omitempty"`
+	Branch     string `json:"current_branch,omitempty"`
+	Base       string `json:"base_branch,omitempty"`
+	NoChange   bool   `json:"branch_without_changes,omitempty"`
+	JSONExists bool   `json:"json_file_exists"`
 	Exit     int          `json:"exit"`
 	Stderr   string       `json:"stderr_tail,omitempty"`
 }
@@ -89,6 +96,8 @@ func runC05(args []string) int {
 	rep := newReport("C05", seed)
 	rep.Rule = "scenario = generated rule file + config assigning custom severities (report/label blocks, syntax errors, strict parse errors, broken yaml); " +
 		"each scenario is run through the real pint binary (lint and ci) for every --fail-on in {omitted,info,warning,bug,fatal,invalid} x a sample of --min-severity x --show-duplicates; " +
+		"every third scenario additionally with one injected fault per error return of actionSetup/actionLint/actionCI (no path, missing path, bad/missing config, --workers 0, bad log level, " +
+		"unwritable --json/--checkstyle, not a git repository, unknown base branch, github reporter without token), pint ci run from the base branch (5 spellings) and on a branch without changes; " +
 		"non-trivial = the JSON report holds >= 2 distinct severities; distinct = (severity multiset, flags)"
 	cwd, _ := os.Getwd()
 	base := filepath.Join(cwd, "scen")
@@ -102,6 +111,18 @@ func runC05(args []string) int {
 		{Rules: "groups:\n- name: g\n  rules:\n  - record: r0\n    expr: up\n  - record: r1\n    expr: up\n", Config: "rule {\n  match {\n    name = \"r0\"\n  }\n  report {\n    comment = \"x\"\n    severity = \"info\"\n  }\n}\nrule {\n  match {\n    name = \"r1\"\n  }\n  report {\n    comment = \"x\"\n    severity = \"fatal\"\n  }\n}\n"},
 		{Rules: "groups:\n- name: g\n  rules: []\n", Config: "parser { relaxed = [] }\n"},
 	}, scen...)
+	// boundary strata: for every severity S a scenario whose ONLY problem has severity S, and one whose maximum is S with
+	// a lower one next to it — every (maximum severity, --fail-on) pair of the 4x4 grid is exercised on both commands
+	var grid []c05Scenario
+	for k, sv := range c05Sevs {
+		one := "groups:\n- name: g\n  rules:\n  - record: r0\n    expr: up\n"
+		two := one + "  - record: r1\n    expr: up\n"
+		grid = append(grid, c05Scenario{Rules: one, Config: fmt.Sprintf("rule {\n  report {\n    comment = \"only\"\n    severity = %q\n  }\n}\n", sv)})
+		if k > 0 {
+			grid = append(grid, c05Scenario{Rules: two, Config: fmt.Sprintf("rule {\n  match {\n    name = \"r0\"\n  }\n  report {\n    comment = \"hi\"\n    severity = %q\n  }\n}\nrule {\n  match {\n    name = \"r1\"\n  }\n  report {\n    comment = \"lo\"\n    severity = %q\n  }\n}\n", sv, c05Sevs[k-1])})
+		}
+	}
+	scen = append(grid, scen...)
 
 	var runs []c05Run
 	failOns := []*string{nil}
@@ -130,6 +151,49 @@ func runC05(args []string) int {
 		writeFile(filepath.Join(cd, ".pint.hcl"), scen[si].Config)
 		git(cd, "add", ".")
 		git(cd, "commit", "-q", "-m", "add rules")
+		if si%3 == 0 {
+			// a second repository whose feature branch has no change at all
+			c2 := filepath.Join(dir, "ci2")
+			writeFile(filepath.Join(c2, "rules", "0.yml"), scen[si].Rules)
+			writeFile(filepath.Join(c2, ".pint.hcl"), scen[si].Config)
+			git(c2, "init", "-q", "-b", "main", ".")
+			git(c2, "add", ".")
+			git(c2, "commit", "-q", "-m", "init")
+			git(c2, "checkout", "-q", "-b", "feature")
+			// not a repository for git: a .git file pointing nowhere (the work directory itself lives inside a git checkout)
+			writeFile(filepath.Join(dir, "nogit", ".git"), "gitdir: /nonexistent/verif-c05\n")
+			writeFile(filepath.Join(dir, "nogit", "rules", "0.yml"), scen[si].Rules)
+			writeFile(filepath.Join(dir, "nogit", ".pint.hcl"), scen[si].Config)
+			writeFile(filepath.Join(dir, "bad.hcl"), "rule {\n  this is not hcl\n")
+			writeFile(filepath.Join(dir, "gh.hcl"), scen[si].Config+"repository {\n  github {\n    owner = \"o\"\n    repo = \"r\"\n  }\n}\n")
+			fat, bug := "fatal", "info"
+			for _, fo := range []*string{nil, &fat, &bug} {
+				for _, f := range []string{"no-paths", "missing-path", "bad-config", "missing-config", "workers", "log-level", "json-unwritable", "checkstyle-unwritable"} {
+					runs = append(runs, c05Run{Scenario: si, FailOn: fo, Fault: f})
+					if f == "bad-config" || f == "workers" || f == "json-unwritable" {
+						runs = append(runs, c05Run{Scenario: si, CI: true, FailOn: fo, Fault: f, Branch: "feature", Base: "main"})
+					}
+				}
+				for _, f := range []string{"not-a-repo", "bad-base", "github-no-token"} {
+					ru := c05Run{Scenario: si, CI: true, FailOn: fo, Fault: f, Branch: "feature", Base: "main"}
+					if f == "bad-base" {
+						ru.Base = "nosuchbranch"
+					}
+					runs = append(runs, ru)
+				}
+				// running from the base branch: current branch = last "/"-segment of the base branch
+				for _, b := range []string{"feature", "origin/feature", "a/b/feature"} {
+					runs = append(runs, c05Run{Scenario: si, CI: true, FailOn: fo, Branch: "feature", Base: b})
+				}
+				// near misses: not the base branch, and no such revision either
+				for _, b := range []string{"feature/x", "xfeature"} {
+					runs = append(runs, c05Run{Scenario: si, CI: true, FailOn: fo, Branch: "feature", Base: b, Fault: "bad-base"})
+				}
+				runs = append(runs, c05Run{Scenario: si, CI: true, FailOn: fo, Branch: "feature", Base: "main", NoChange: true})
+			}
+			bogus := "critical"
+			runs = append(runs, c05Run{Scenario: si, CI: true, FailOn: &bogus, Branch: "feature", Base: "main", NoChange: true})
+		}
 		for _, fo := range failOns {
 			for k, ms := range minSevs {
 				// full product for lint on a third of the scenarios, otherwise a rotating sample
@@ -138,7 +202,7 @@ func runC05(args []string) int {
 				}
 				runs = append(runs, c05Run{Scenario: si, FailOn: fo, MinSev: ms, ShowDups: r.Intn(2) == 0})
 			}
-			runs = append(runs, c05Run{Scenario: si, CI: true, FailOn: fo, ShowDups: r.Intn(2) == 0})
+			runs = append(runs, c05Run{Scenario: si, CI: true, FailOn: fo, ShowDups: r.Intn(2) == 0, Branch: "feature", Base: "main"})
 		}
 	}
 	for i := range runs {
@@ -149,16 +213,43 @@ func runC05(args []string) int {
 		dir := filepath.Join(base, fmt.Sprintf("s%04d", ru.Scenario))
 		jpath := filepath.Join(dir, fmt.Sprintf("out_%d.json", i))
 		var a []string
-		a = append(a, "--no-color", "-c", ".pint.hcl")
+		cfgArg := ".pint.hcl"
+		jsonArg := jpath
+		switch ru.Fault {
+		case "bad-config":
+			cfgArg = "../bad.hcl"
+		case "missing-config":
+			cfgArg = "../nosuch.hcl"
+		case "github-no-token":
+			cfgArg = "../gh.hcl"
+		case "json-unwritable":
+			jsonArg = "/nonexistent/verif-c05/out.json"
+		}
+		a = append(a, "--no-color", "-c", cfgArg)
+		switch ru.Fault {
+		case "workers":
+			a = append(a, "--workers", "0")
+		case "log-level":
+			a = append(a, "--log-level", "bogus")
+		}
 		if ru.ShowDups {
 			a = append(a, "--show-duplicates")
 		}
 		wd := filepath.Join(dir, "lint")
 		if ru.CI {
 			wd = filepath.Join(dir, "ci")
-			a = append(a, "ci", "--base-branch", "main", "--json", jpath)
+			if ru.NoChange {
+				wd = filepath.Join(dir, "ci2")
+			}
+			if ru.Fault == "not-a-repo" {
+				wd = filepath.Join(dir, "nogit")
+			}
+			a = append(a, "ci", "--base-branch", ru.Base, "--json", jsonArg)
 		} else {
-			a = append(a, "lint", "--json", jpath)
+			a = append(a, "lint", "--json", jsonArg)
+			if ru.Fault == "checkstyle-unwritable" {
+				a = append(a, "--checkstyle", "/nonexistent/verif-c05/out.xml")
+			}
 			if ru.MinSev != nil {
 				a = append(a, "--min-severity", *ru.MinSev)
 			}
@@ -167,7 +258,13 @@ func runC05(args []string) int {
 			a = append(a, "--fail-on", *ru.FailOn)
 		}
 		if !ru.CI {
-			a = append(a, "rules")
+			switch ru.Fault {
+			case "no-paths":
+			case "missing-path":
+				a = append(a, "nosuchdir")
+			default:
+				a = append(a, "rules")
+			}
 		}
 		rc, _, se := runPint(wd, a...)
 		ru.Exit = rc
@@ -176,6 +273,7 @@ func runC05(args []string) int {
 		}
 		ru.Stderr = se
 		b, err := os.ReadFile(jpath)
+		ru.JSONExists = err == nil
 		if err == nil {
 			var js []struct {
 				Severity string `json:"severity"`
@@ -199,8 +297,9 @@ func runC05(args []string) int {
 	sevRank := map[string]int{"Information": 0, "Warning": 1, "Bug": 2, "Fatal": 3}
 	flagRank := map[string]int{"info": 0, "warning": 1, "bug": 2, "fatal": 3}
 	for _, ru := range runs {
-		cw.add(fmt.Sprintf("{| c_id := %s; c_ci := %s; c_fail_on := %s; c_min_sev := %s; c_sevs := %s; c_json_present := %s; c_exit_nonzero := %s |}",
-			coqN(ru.ID), coqBool(ru.CI), optS(ru.FailOn), optS(ru.MinSev), coqStrList(ru.Sevs), coqBool(ru.JSONOK), coqBool(ru.Exit != 0)))
+		cw.add(fmt.Sprintf("{| c_id := %s; c_ci := %s; c_fail_on := %s; c_min_sev := %s; c_sevs := %s; c_json_present := %s; c_exit_nonzero := %s; c_fault := %s; c_branch := %s; c_base := %s; c_json_exists := %s |}",
+			coqN(ru.ID), coqBool(ru.CI), optS(ru.FailOn), optS(ru.MinSev), coqStrList(ru.Sevs), coqBool(ru.JSONOK), coqBool(ru.Exit != 0),
+			coqStr(ru.Fault), coqStr(ru.Branch), coqStr(ru.Base), coqBool(ru.JSONExists)))
 		distinct := map[string]bool{}
 		for _, s := range ru.Sevs {
 			distinct[s] = true
@@ -212,7 +311,7 @@ func runC05(args []string) int {
 		if ru.MinSev != nil {
 			ms = *ru.MinSev
 		}
-		key := fmt.Sprintf("%v|%s|%s|%v|%v", ru.Sevs, fo, ms, ru.CI, ru.ShowDups)
+		key := fmt.Sprintf("%v|%s|%s|%v|%v|%s|%s|%v", ru.Sevs, fo, ms, ru.CI, ru.ShowDups, ru.Fault, ru.Base, ru.NoChange)
 		rep.count(key, len(distinct) >= 2)
 		rep.hist(fmt.Sprintf("failon=%s", fo))
 		rep.hist(fmt.Sprintf("distinct_sevs=%d", len(distinct)))
@@ -231,6 +330,27 @@ func runC05(args []string) int {
 		if ru.Exit < 0 || ru.Exit > 1 {
 			rep.fail(fmt.Sprint(ru.ID), fmt.Sprintf("pint crashed or timed out (exit %d): %s", ru.Exit, ru.Stderr), map[string]any{"run": ru, "scenario": scen[ru.Scenario]})
 			continue
+		}
+		if ru.Fault != "" {
+			rep.hist("fault=" + ru.Fault)
+			if ru.Exit == 0 {
+				rep.fail(fmt.Sprint(ru.ID), fmt.Sprintf("pint exits 0 although the run could not be carried out (%s): %s", ru.Fault, ru.Stderr), map[string]any{"run": ru, "scenario": scen[ru.Scenario]})
+			}
+			continue
+		}
+		if ru.CI {
+			segs := strings.Split(ru.Base, "/")
+			if segs[len(segs)-1] == ru.Branch {
+				// documented: running from the base branch skips all checks
+				rep.hist("ci=on-base-branch")
+				if ru.Exit != 0 || ru.JSONExists {
+					rep.fail(fmt.Sprint(ru.ID), fmt.Sprintf("pint ci run from the base branch (%s vs %s) did not skip: exit %d, report written=%v", ru.Branch, ru.Base, ru.Exit, ru.JSONExists), map[string]any{"run": ru, "scenario": scen[ru.Scenario]})
+				}
+				continue
+			}
+			if ru.NoChange {
+				rep.hist("ci=branch-without-changes")
+			}
 		}
 		foRank, foOK := flagRank[fo]
 		if ru.FailOn == nil {
